@@ -201,6 +201,7 @@ class World(object):
         self.faults_hit = []
         self.yield_hook = None
         self.recv_hook = None
+        self.frame_faults = {}        # {opcode: kind}: one-shot fault on the first write of a frame with that opcode
         self.thread_name = None
 
     # clock object interface (lomond.session.time / lomond.events.time)
@@ -294,6 +295,9 @@ class SimSocket(object):
         w.step()
         data = bytes(data)
         f = w.fault('sendall')
+        if not f and w.frame_faults and data and data[0] & 0x80 and (data[0] & 0x0f) in w.frame_faults:
+            f = w.frame_faults.pop(data[0] & 0x0f)
+            w.faults_hit.append(('sendall-frame', data[0] & 0x0f, f))
         if self.closed:
             w.rec('sendall_closed', self.sid, data)
             raise OSError(errno.EBADF, 'Bad file descriptor')
@@ -535,7 +539,8 @@ class SimSocketModule(object):
             raise _mkerr(f)
         if w.gai_error:
             raise _real_socket.gaierror(-2, 'Name or service not known')
-        return [(_real_socket.AF_INET, _real_socket.SOCK_STREAM, 6, '', tuple(sa))
+        # a 4-tuple sockaddr (host, port, flowinfo, scope_id) is an IPv6 result, as with the real resolver
+        return [(_real_socket.AF_INET6 if len(sa) == 4 else _real_socket.AF_INET, _real_socket.SOCK_STREAM, 6, '', tuple(sa))
                 for _o, sa in w.addrs]
 
     def socket(self, family=-1, type=-1, proto=-1):
